@@ -118,6 +118,22 @@ CHECKS = {
         note=('Trusted: Coq kernel + vm_compute; floating point (numpy.average, sum) validated inside a 1e-9 band, not '
               'proved; weight sums within 0.1% of the 1e-7 threshold excluded.'),
         technique='Coq proof over Q (induction on the constituent list, lra/nra/field) + in-Coq correspondence within a stated band + metamorphic pairs'),
+    'C15': dict(
+        category='proof',
+        text=('Coq theorems about a model of the decision logic of apply_rubber_band (compute_force_constants after the '
+              'decay kernel, residue-graph connectivity, domain criteria, masking, upper-triangle emission): for a '
+              'non-negative minimum force a pair gets a bond iff it is two different selected atoms, linkable (same '
+              'domain, no walk of <= separation residue-graph edges), d <= upper and min(k0, base) > minimum force (NaN '
+              'never); the written constant is min(k0, base); the network is exactly the set of passing unordered pairs, '
+              'hence independent of atom order, with exactly one bond per pair; squared distances are invariant under '
+              'every rigid motion (over Q); NaN coordinates give no network. Tie: the real apply_rubber_band with the '
+              'distance/decay matrices of the real kernels shipped as exact rationals; bonds compared with the model and '
+              'with the statement evaluated pair by pair in Coq.'),
+        design_ref='DESIGN.md section 5, C15',
+        note=('Trusted: Coq kernel + vm_compute; numpy sqrt/exp kernels taken from the implementation (d^2 checked against '
+              'exact arithmetic within 1e-12; exp not re-derived); bond length rounding compared within 6e-6; negative '
+              'minimum_force is a known finding outside the statement (F11).'),
+        technique='Coq proof (case analysis over the threshold chain with lra over Q, bounded-walk characterisation, set-of-pairs theorem by induction over the upper triangle) + in-Coq correspondence with kernel outputs as exact rationals'),
 }
 NOT_APPLICABLE = {}
 PENDING_REASON = 'not yet claimed: model and proofs for this property are still being built (see DESIGN.md staging); no check is registered so nothing is asserted'
